@@ -385,14 +385,33 @@ func ruleTimeConservation(w *World, r *Report, pfx string) {
 					adds = append(adds, addCall{c, ev})
 				}
 			}
+			isUnusable := func(v Val) bool {
+				c, ok := v.V.(*ssa.Call)
+				if !ok {
+					return false
+				}
+				switch staticCalleeName(&c.Call) {
+				case "math.IsInf", "math.IsNaN":
+					return true
+				}
+				return false
+			}
 			switch {
 			case len(adds) == 0:
 				sawCarry = true
 				if len(st) != 1 || !isCarry(st[0].Val) {
 					bad = "a sample without progress (or with an unusable quotient) is not carried into the next one as zDur += dur: its time is dropped and the next estimate is too optimistic"
 				}
+				// ... and only such a sample is: the path carries n <= 0 or a positive IsInf / IsNaN
+				if bad == "" && !p.hasCmp(-1, token.LEQ, func(v Val) bool { return v.V == nP }, isConstInt(0)) && !p.hasBool(-1, true, isUnusable) {
+					bad = "a sample is carried instead of added on a path that carries neither n <= 0 nor an infinite / NaN quotient: usable samples never reach the moving average"
+				}
 			case len(adds) == 1:
 				sawAdd = true
+				if p.hasBool(-1, true, isUnusable) {
+					bad = "a quotient known to be infinite or NaN is added to the moving average"
+					return
+				}
 				if !p.hasCmp(-1, token.GTR, func(v Val) bool { return v.V == nP }, isConstInt(0)) {
 					bad = "a duration-per-item is added on a path without the atom n > 0 (division by zero or negative progress)"
 					return
@@ -504,6 +523,33 @@ func ruleSamplesReach(w *World, r *Report, pfx string) {
 			}
 			if !okApp {
 				bad = orStr(bad, "found estimators are not collected")
+			}
+			// ... under the ok of that assertion, and the value collected is the asserted one
+			for _, b := range ta.Parent().Blocks {
+				for _, in := range b.Instrs {
+					ac, ok := in.(*ssa.Call)
+					if !ok || !isBuiltinCall(&ac.Call, "append") || !strings.Contains(ac.Type().String(), "EwmaDecorator") {
+						continue
+					}
+					underOk := false
+					for _, ref := range *ta.Referrers() {
+						ex, ok := ref.(*ssa.Extract)
+						if !ok || ex.Index != 1 || ex.Referrers() == nil {
+							continue
+						}
+						for _, r2 := range *ex.Referrers() {
+							if ifi, ok := r2.(*ssa.If); ok {
+								t := ifi.Block().Succs[0]
+								if t == b || (t.Dominates(b) && len(t.Preds) == 1) {
+									underOk = true
+								}
+							}
+						}
+					}
+					if !underOk {
+						bad = orStr(bad, "the collection is not guarded by the success of the assertion (a decorator that is no estimator is collected as a nil estimator, the estimators themselves are not)")
+					}
+				}
 			}
 		}
 	}
@@ -807,6 +853,80 @@ func ruleTimeProducers(w *World, r *Report, pfx string) {
 			bad = orStr(bad, "hours/minutes/seconds are not each derived once")
 		}
 		r.Check(bad == "", rule, fmt.Sprintf("time producer #%d", n), w.pos(fn.Pos()), fmt.Sprintf("components %v", comps), bad)
+		// what is printed, path by path: the arguments of the one Sprintf are (d/unit)%60 components in
+		// descending, contiguous units starting at hours - or at minutes only on a path that carries
+		// hours <= 0 (the MM:SS style shows hours once there are any)
+		bad2 := ""
+		unitOf := func(p *Path, v Val) string {
+			x := p.R(v)
+			rem, ok := stripConv(x.V).(*ssa.BinOp)
+			if !ok || rem.Op != token.REM {
+				return ""
+			}
+			if k, ok := constInt(rem.Y); !ok || k != 60 {
+				return ""
+			}
+			q, ok := stripConv(p.R(Val{rem.X, x.F, x.E}).V).(*ssa.BinOp)
+			if !ok || q.Op != token.QUO {
+				return ""
+			}
+			if _, isPar := p.R(Val{q.X, x.F, x.E}).V.(*ssa.Parameter); !isPar {
+				return ""
+			}
+			u, _ := constInt(q.Y)
+			return units[u]
+		}
+		_, over := w.enumPaths(fn0, pathOpts{InlineDepth: 2, Inline: w.helperInline(fn0)}, func(p *Path) {
+			if p.Exit != "return" || bad2 != "" {
+				return
+			}
+			var us []string
+			nSprintf := 0
+			for _, ev := range p.Events {
+				switch x := ev.In.(type) {
+				case *ssa.Call:
+					if staticCalleeName(&x.Call) == "fmt.Sprintf" {
+						nSprintf++
+					}
+				case *ssa.Store:
+					ia, ok := x.Addr.(*ssa.IndexAddr)
+					if !ok {
+						continue
+					}
+					if al, ok := ia.X.(*ssa.Alloc); !ok || al.Comment != "varargs" {
+						continue
+					}
+					mi, ok := x.Val.(*ssa.MakeInterface)
+					if !ok {
+						us = append(us, "?")
+						continue
+					}
+					us = append(us, orStr(unitOf(p, Val{mi.X, ev.F, ev.E}), "?"))
+				}
+			}
+			if nSprintf != 1 {
+				bad2 = fmt.Sprintf("a path formats %d times", nSprintf)
+				return
+			}
+			switch strings.Join(us, "") {
+			case "hms", "hm":
+			case "ms":
+				isHours := func(v Val) bool { return unitOf(p, v) == "h" }
+				atMost := func(n int64) func(Val) bool {
+					return func(v Val) bool { k, ok := constInt(v.V); return ok && k <= n }
+				}
+				if !p.hasCmp(-1, token.LEQ, isHours, atMost(0)) && !p.hasCmp(-1, token.LSS, isHours, atMost(1)) {
+					bad2 = "minutes:seconds are printed without the hours on a path that does not carry hours <= 0: a remaining time of an hour or more reads back an hour short"
+				}
+			default:
+				bad2 = "the printed components are [" + strings.Join(us, " ") + "]: not hours, minutes, seconds each as (d / unit) % 60 in this order"
+			}
+		})
+		if over {
+			r.Undecided(rule, fmt.Sprintf("time producer #%d components", n), w.pos(fn.Pos()), "path cap")
+		} else {
+			r.Check(bad2 == "", rule, fmt.Sprintf("time producer #%d components", n), w.pos(fn.Pos()), "h:m:s / h:m, or m:s under hours <= 0", bad2)
+		}
 	}
 	r.Floor(rule, 3, "HHMMSS, HHMM, MMSS producers")
 }
@@ -923,6 +1043,9 @@ func checkC20(w *World, r *Report) {
 	ruleStatisticsFaithful(w, r, "C20")
 	checkWaitGroups(w, r, "C20")
 	ruleMedianReadOnly(w, r, "C20")
+	ruleDefaultFormat(w, r, "C20")
+	ruleNormalizerGuard(w, r, "C20")
+	ruleAverageSet(w, r, "C20")
 	ruleLoopVarCapture(w, r, "C20.LOOPVAR")
 }
 
